@@ -52,3 +52,315 @@ package jmespath
 //@   loop 1 decreases stop - i
 //@   loop 2 invariant [walk] !isNil(result) && i <= len(slice)-1 && -1 <= stop && step < 0 && specWalkDown(slice, i, stop, step, result) == specWalkDown(slice, start, stop, step, specEmptyList())
 //@   loop 2 decreases i - stop
+
+// ---------------------------------------------------------------------------
+// util.go — truthiness, equality, typed-array conversion (C07, C10)
+
+//@ func isFalse
+//@   props C05,C07
+//@   requires specJSONVal(value)
+//@   ensures {C07} [jmespath-truth] result == specFalse(value)
+//@   assigns \nothing
+//@   decreases 0
+
+//@ func objsEqual
+//@   props C05,C07
+//@   requires specJSONVal(left) && specJSONVal(right)
+//@   ensures {C07} [deep-json-equality] result == specDeepEq(left, right)
+//@   assigns \nothing
+
+//@ func isSliceType
+//@   props C05
+//@   ensures [slice-kind] result == (!isNil(v) && kindOf(v) == 23)
+//@   assigns \nothing
+
+//@ func toArrayNum
+//@   props C05,C10
+//@   ensures {C10} [ok-iff-array-of-numbers] r1 == (isArr(data) && (forall j int :: 0 <= j && j < arrLen(data) ==> isNum(arrAt(data, j))))
+//@   ensures {C10} [copied] r1 ==> len(result) == arrLen(data) && !isNil(result) && (forall j int :: 0 <= j && j < arrLen(data) ==> same(result[j], numOf(arrAt(data, j))))
+//@   ensures {C06} fresh(result)
+//@   assigns \nothing
+//@   loop 1 invariant [prefix-numbers] 0 <= \k && \k <= arrLen(data) && (forall j int :: 0 <= j && j < \k ==> isNum(arrAt(data, j)) && same(result[j], numOf(arrAt(data, j))))
+//@   loop 1 decreases arrLen(data) - \k
+
+//@ func toArrayStr
+//@   props C05,C10
+//@   ensures {C10} [ok-iff-array-of-strings] r1 == (isArr(data) && (forall j int :: 0 <= j && j < arrLen(data) ==> isStr(arrAt(data, j))))
+//@   ensures {C10} [copied] r1 ==> len(result) == arrLen(data) && !isNil(result) && (forall j int :: 0 <= j && j < arrLen(data) ==> result[j] == strOf(arrAt(data, j)))
+//@   ensures {C06} fresh(result)
+//@   assigns \nothing
+//@   loop 1 invariant [prefix-strings] 0 <= \k && \k <= arrLen(data) && (forall j int :: 0 <= j && j < \k ==> isStr(arrAt(data, j)) && result[j] == strOf(arrAt(data, j)))
+//@   loop 1 decreases arrLen(data) - \k
+
+// ---------------------------------------------------------------------------
+// lexer.go — cursor discipline, token positions, syntax-error locations (C05, C14, C17)
+
+//@ func (*Lexer).next
+//@   props C05
+//@   requires specLexOK(lexer.expression, lexer.currentPos, lexer.lastWidth)
+//@   assigns Lexer.currentPos, Lexer.lastWidth
+//@   ensures [cursor-ok] specLexOK(lexer.expression, lexer.currentPos, lexer.lastWidth)
+//@   ensures [width-consumed] lexer.lastWidth <= lexer.currentPos
+//@   ensures [at-end] old(lexer.currentPos) >= len(lexer.expression) ==> result == -1 && lexer.lastWidth == 0 && lexer.currentPos == old(lexer.currentPos)
+//@   ensures [advances] old(lexer.currentPos) < len(lexer.expression) ==> 1 <= lexer.lastWidth && lexer.lastWidth <= 4 && lexer.currentPos == old(lexer.currentPos) + lexer.lastWidth && result >= 0
+//@   ensures [decoded] old(lexer.currentPos) < len(lexer.expression) ==> result == specRuneAt(lexer.expression, old(lexer.currentPos)) && lexer.lastWidth == specWidthAt(lexer.expression, old(lexer.currentPos))
+
+//@ func (*Lexer).peek
+//@   props C05
+//@   requires specLexOK(lexer.expression, lexer.currentPos, lexer.lastWidth)
+//@   assigns Lexer.currentPos, Lexer.lastWidth
+//@   ensures [cursor-ok] specLexOK(lexer.expression, lexer.currentPos, lexer.lastWidth)
+//@   ensures [position-unchanged] lexer.currentPos == old(lexer.currentPos)
+//@   ensures [at-end] lexer.currentPos >= len(lexer.expression) ==> result == -1 && lexer.lastWidth == 0
+//@   ensures [looks-ahead] lexer.currentPos < len(lexer.expression) ==> result >= 0 && result == specRuneAt(lexer.expression, lexer.currentPos) && lexer.lastWidth == specWidthAt(lexer.expression, lexer.currentPos) && 1 <= lexer.lastWidth && lexer.currentPos + lexer.lastWidth <= len(lexer.expression)
+
+//@ func (*Lexer).syntaxError
+//@   props C05,C17
+//@   requires 1 <= lexer.currentPos && lexer.currentPos <= len(lexer.expression)
+//@   assigns \nothing
+//@   ensures {C17} [location] result.Expression == lexer.expression && 0 <= result.Offset && result.Offset <= len(lexer.expression)
+
+//@ func (*Lexer).matchOrElse
+//@   props C05
+//@   requires specLexOK(lexer.expression, lexer.currentPos, lexer.lastWidth) && lexer.lastWidth <= lexer.currentPos
+//@   assigns Lexer.currentPos, Lexer.lastWidth
+//@   ensures [cursor-ok] specLexOK(lexer.expression, lexer.currentPos, lexer.lastWidth) && lexer.currentPos >= old(lexer.currentPos)
+//@   ensures {C17} [token-position] 0 <= result.position && result.position <= len(lexer.expression)
+//@   ensures [token-type] result.tokenType == matchedType || result.tokenType == singleCharType
+
+//@ func (*Lexer).consumeLBracket
+//@   props C05
+//@   requires specLexOK(lexer.expression, lexer.currentPos, lexer.lastWidth) && lexer.lastWidth <= lexer.currentPos
+//@   assigns Lexer.currentPos, Lexer.lastWidth
+//@   ensures [cursor-ok] specLexOK(lexer.expression, lexer.currentPos, lexer.lastWidth) && lexer.currentPos >= old(lexer.currentPos)
+//@   ensures {C17} [token-position] 0 <= result.position && result.position <= len(lexer.expression)
+//@   ensures [token-type] result.tokenType == tFilter || result.tokenType == tFlatten || result.tokenType == tLbracket
+
+//@ func (*Lexer).consumeNumber
+//@   props C05
+//@   requires specLexOK(lexer.expression, lexer.currentPos, lexer.lastWidth) && lexer.lastWidth <= lexer.currentPos
+//@   assigns Lexer.currentPos, Lexer.lastWidth
+//@   ensures [cursor-ok] specLexOK(lexer.expression, lexer.currentPos, lexer.lastWidth) && lexer.currentPos >= old(lexer.currentPos)
+//@   ensures {C17} [token-position] 0 <= result.position && result.position <= len(lexer.expression)
+//@   ensures [token-type] result.tokenType == tNumber
+//@   loop 1 invariant specLexOK(lexer.expression, lexer.currentPos, lexer.lastWidth) && start <= lexer.currentPos && lexer.currentPos >= old(lexer.currentPos) && start == old(lexer.currentPos) - old(lexer.lastWidth)
+//@   loop 1 decreases len(lexer.expression) - lexer.currentPos
+
+//@ func (*Lexer).consumeUnquotedIdentifier
+//@   props C05
+//@   requires specLexOK(lexer.expression, lexer.currentPos, lexer.lastWidth) && lexer.lastWidth <= lexer.currentPos
+//@   assigns Lexer.currentPos, Lexer.lastWidth
+//@   ensures [cursor-ok] specLexOK(lexer.expression, lexer.currentPos, lexer.lastWidth) && lexer.currentPos >= old(lexer.currentPos)
+//@   ensures {C17} [token-position] 0 <= result.position && result.position <= len(lexer.expression)
+//@   ensures [token-type] result.tokenType == tUnquotedIdentifier
+//@   loop 1 invariant specLexOK(lexer.expression, lexer.currentPos, lexer.lastWidth) && start <= lexer.currentPos && lexer.currentPos >= old(lexer.currentPos) && start == old(lexer.currentPos) - old(lexer.lastWidth)
+//@   loop 1 decreases len(lexer.expression) - lexer.currentPos
+
+//@ define lexOK(l) = specLexOK(l.expression, l.currentPos, l.lastWidth)
+//@ define errLocOK(err, expr) = (err != nil ==> (isSyntaxError(err) ==> err.Expression == expr && 0 <= err.Offset && err.Offset <= len(expr)))
+//@ define tokensOK(toks, n, explen) = (forall j int :: 0 <= j && j < n ==> toks[j].tokenType != tEOF && 0 <= toks[j].position && toks[j].position <= explen)
+
+//@ func (*Lexer).consumeUntil
+//@   props C05
+//@   requires lexOK(lexer)
+//@   assigns Lexer.currentPos, Lexer.lastWidth
+//@   ensures [cursor-ok] lexOK(lexer) && lexer.currentPos >= old(lexer.currentPos)
+//@   ensures {C17} [error-location] err != nil ==> isSyntaxError(err) && err.Expression == lexer.expression && err.Offset == len(lexer.expression)
+//@   ensures [found] err == nil ==> old(lexer.currentPos) < lexer.currentPos
+//@   loop 1 invariant lexOK(lexer) && start == old(lexer.currentPos) && start <= lexer.currentPos - lexer.lastWidth && ((current == -1) <==> (lexer.lastWidth == 0)) && (current == -1 ==> lexer.currentPos >= len(lexer.expression)) && (current != -1 ==> start < lexer.currentPos)
+//@   loop 1 decreases len(lexer.expression) - lexer.currentPos + (current == -1 ? 0 : 1)
+
+//@ func (*Lexer).consumeLiteral
+//@   props C05
+//@   requires lexOK(lexer)
+//@   assigns Lexer.currentPos, Lexer.lastWidth
+//@   ensures [cursor-ok] lexOK(lexer) && lexer.currentPos >= old(lexer.currentPos)
+//@   ensures {C17} [error-location] err != nil ==> isSyntaxError(err) && err.Expression == lexer.expression && err.Offset == len(lexer.expression)
+//@   ensures {C17} [token-position] err == nil ==> 0 <= result.position && result.position <= len(lexer.expression) && result.tokenType == tJSONLiteral
+
+//@ func (*Lexer).consumeQuotedIdentifier
+//@   props C05
+//@   requires lexOK(lexer) && 1 <= lexer.currentPos
+//@   assigns Lexer.currentPos, Lexer.lastWidth
+//@   ensures [cursor-ok] lexOK(lexer) && lexer.currentPos >= old(lexer.currentPos)
+//@   ensures {C17} [error-location] isSyntaxError(err) ==> err.Expression == lexer.expression && err.Offset == len(lexer.expression)
+//@   ensures {C17} [token-position] err == nil ==> 0 <= result.position && result.position <= len(lexer.expression) && result.tokenType == tQuotedIdentifier
+
+//@ func (*Lexer).consumeRawStringLiteral
+//@   props C05
+//@   requires lexOK(lexer) && lexer.buf == ""
+//@   assigns Lexer.currentPos, Lexer.lastWidth, Lexer.buf
+//@   ensures [cursor-ok] lexOK(lexer) && lexer.currentPos >= old(lexer.currentPos)
+//@   ensures {C17} [error-location] err != nil ==> isSyntaxError(err) && err.Expression == lexer.expression && err.Offset == len(lexer.expression)
+//@   ensures {C17} [token-position] err == nil ==> 0 <= result.position && result.position <= len(lexer.expression) && result.tokenType == tStringLiteral
+//@   ensures {C13} [buffer-left-empty] err == nil ==> lexer.buf == ""
+//@   loop 1 invariant lexOK(lexer) && start == old(lexer.currentPos) && start <= currentIndex && currentIndex <= lexer.currentPos && (current != -1 ==> currentIndex + 1 <= lexer.currentPos && lexer.lastWidth >= 1) && (current == -1 ==> lexer.currentPos >= len(lexer.expression))
+//@   loop 1 decreases len(lexer.expression) - lexer.currentPos + (current == -1 ? 0 : 1)
+
+//@ func (*Lexer).tokenize
+//@   props C05
+//@   requires lexer.buf == ""
+//@   assigns Lexer.expression, Lexer.currentPos, Lexer.lastWidth, Lexer.buf
+//@   ensures [expression-recorded] lexer.expression == expression
+//@   ensures {C17} [error-location] isSyntaxError(err) ==> err.Expression == expression && 0 <= err.Offset && err.Offset <= len(expression)
+//@   ensures {C05,C17} [tokens-well-formed] err == nil ==> len(result) >= 1 && result[len(result)-1].tokenType == tEOF && result[len(result)-1].position == len(expression) && tokensOK(result, len(result)-1, len(expression))
+//@   ensures {C13} [buffer-left-empty] err == nil ==> lexer.buf == ""
+//@   loop 1 invariant lexOK(lexer) && lexer.expression == expression && lexer.buf == "" && tokensOK(tokens, len(tokens), len(expression))
+//@   loop 1 decreases len(expression) - lexer.currentPos
+
+// ---------------------------------------------------------------------------
+// Diagnostic text only (feeds error messages / -ast output). Trusted: the
+// bodies are not verified; they are assumed to return some string without
+// panicking and to write nothing.
+
+//@ func tokType.String
+//@   trusted generated by stringer; result only used in error-message text
+//@   assigns \nothing
+//@ func astNodeType.String
+//@   trusted generated by stringer; result only used in error-message text
+//@   assigns \nothing
+//@ func token.String
+//@   trusted fmt.Sprintf over the token fields; result only used in error-message text
+//@   assigns \nothing
+
+// ---------------------------------------------------------------------------
+// parser.go — token cursor, termination, error locations (C05, C17)
+
+//@ define wfToks(p) = len(p.tokens) >= 1 && p.tokens[len(p.tokens)-1].tokenType == tEOF && 0 <= p.tokens[len(p.tokens)-1].position && p.tokens[len(p.tokens)-1].position <= len(p.expression) && tokensOK(p.tokens, len(p.tokens)-1, len(p.expression))
+//@ define PI(p) = wfToks(p) && 0 <= p.index && p.index < len(p.tokens)
+//@ define parseErrOK(p, err) = (isSyntaxError(err) ==> err.Expression == p.expression && 0 <= err.Offset && err.Offset <= len(p.expression))
+
+//@ func tokensOneOf
+//@   props C05
+//@   ensures [membership] result <==> (exists j int :: 0 <= j && j < len(elements) && elements[j] == token)
+//@   assigns \nothing
+//@   loop 1 invariant 0 <= \k && \k <= len(elements) && (forall j int :: 0 <= j && j < \k ==> elements[j] != token)
+//@   loop 1 decreases len(elements) - \k
+
+//@ func (*Parser).match
+//@   props C05
+//@   requires PI(p) && tokenType != tEOF
+//@   assigns Parser.index
+//@   ensures [consumed] err == nil ==> p.index == old(p.index) + 1 && p.tokens[old(p.index)].tokenType == tokenType && PI(p)
+//@   ensures [not-consumed] err != nil ==> p.index == old(p.index)
+//@   ensures {C17} [error-location] parseErrOK(p, err)
+
+//@ func (*Parser).parseSliceExpression
+//@   props C05,C08
+//@   requires PI(p)
+//@   assigns Parser.index
+//@   ensures [cursor] err == nil ==> PI(p) && p.index > old(p.index)
+//@   ensures [cursor-on-error] p.index >= old(p.index)
+//@   ensures {C04} [never-an-empty-node] err == nil ==> result.nodeType != ASTEmpty
+//@   ensures {C17} [error-location] parseErrOK(p, err)
+//@   ensures {C08} [slice-node] err == nil ==> result.nodeType == ASTSlice && isIntPtrs(result.value) && nkids(result) == 0
+//@   loop 1 invariant PI(p) && 0 <= index && index <= 3 && p.index >= old(p.index) && current == p.tokens[p.index].tokenType
+//@   loop 1 decreases len(p.tokens) - p.index
+
+//@ func (*Parser).parseIndexExpression
+//@   props C05
+//@   requires PI(p) && (p.tokens[p.index].tokenType == tNumber || p.tokens[p.index].tokenType == tColon)
+//@   assigns Parser.index
+//@   ensures [cursor] err == nil ==> PI(p) && p.index > old(p.index)
+//@   ensures [cursor-on-error] p.index >= old(p.index)
+//@   ensures {C04} [never-an-empty-node] err == nil ==> result.nodeType != ASTEmpty
+//@   ensures {C17} [error-location] parseErrOK(p, err)
+//@   ensures [node] err == nil ==> (result.nodeType == ASTSlice && isIntPtrs(result.value) || result.nodeType == ASTIndex && isInt(result.value)) && nkids(result) == 0
+
+//@ func (*Parser).parseExpression
+//@   props C05
+//@   requires PI(p) && 0 <= bindingPower
+//@   assigns Parser.index
+//@   decreases len(p.tokens) - p.index
+//@   decreases 0
+//@   ensures [cursor] err == nil ==> PI(p) && p.index > old(p.index)
+//@   ensures {C04} [never-an-empty-node] err == nil ==> result.nodeType != ASTEmpty
+//@   ensures {C17} [error-location] parseErrOK(p, err)
+//@   loop 1 invariant PI(p) && p.index > old(p.index) && currentToken == p.tokens[p.index].tokenType && leftNode.nodeType != ASTEmpty
+//@   loop 1 decreases len(p.tokens) - p.index
+
+//@ func (*Parser).nud
+//@   props C05
+//@   requires wfToks(p) && 1 <= p.index && p.index <= len(p.tokens) && token == p.tokens[p.index-1]
+//@   assigns Parser.index
+//@   decreases len(p.tokens) - p.index
+//@   decreases 4
+//@   ensures [cursor] err == nil ==> PI(p) && p.index >= old(p.index)
+//@   ensures {C04} [never-an-empty-node] err == nil ==> result.nodeType != ASTEmpty
+//@   ensures {C17} [error-location] parseErrOK(p, err)
+
+//@ func (*Parser).led
+//@   props C05
+//@   requires PI(p) && 1 <= p.index && tokenType == p.tokens[p.index-1].tokenType
+//@   assigns Parser.index
+//@   decreases len(p.tokens) - p.index
+//@   decreases 4
+//@   ensures [cursor] err == nil ==> PI(p) && p.index >= old(p.index)
+//@   ensures {C04} [never-an-empty-node] err == nil ==> result.nodeType != ASTEmpty
+//@   ensures {C17} [error-location] parseErrOK(p, err)
+//@   loop 1 invariant PI(p) && p.index >= old(p.index)
+//@   loop 1 decreases len(p.tokens) - p.index
+
+//@ func (*Parser).parseMultiSelectList
+//@   props C05
+//@   requires PI(p)
+//@   assigns Parser.index
+//@   decreases len(p.tokens) - p.index
+//@   decreases 1
+//@   ensures [cursor] err == nil ==> PI(p) && p.index > old(p.index)
+//@   ensures {C04} [never-an-empty-node] err == nil ==> result.nodeType != ASTEmpty
+//@   ensures {C17} [error-location] parseErrOK(p, err)
+//@   loop 1 invariant PI(p) && p.index >= old(p.index)
+//@   loop 1 decreases len(p.tokens) - p.index
+
+//@ func (*Parser).parseMultiSelectHash
+//@   props C05
+//@   requires PI(p)
+//@   assigns Parser.index
+//@   decreases len(p.tokens) - p.index
+//@   decreases 1
+//@   ensures [cursor] err == nil ==> PI(p) && p.index > old(p.index)
+//@   ensures {C04} [never-an-empty-node] err == nil ==> result.nodeType != ASTEmpty
+//@   ensures {C17} [error-location] parseErrOK(p, err)
+//@   loop 1 invariant PI(p) && p.index >= old(p.index)
+//@   loop 1 decreases len(p.tokens) - p.index
+
+//@ func (*Parser).projectIfSlice
+//@   props C05
+//@   requires PI(p)
+//@   assigns Parser.index
+//@   decreases len(p.tokens) - p.index
+//@   decreases 3
+//@   ensures [cursor] err == nil ==> PI(p) && p.index >= old(p.index)
+//@   ensures {C04} [never-an-empty-node] err == nil ==> result.nodeType != ASTEmpty
+//@   ensures {C17} [error-location] parseErrOK(p, err)
+
+//@ func (*Parser).parseFilter
+//@   props C05
+//@   requires PI(p)
+//@   assigns Parser.index
+//@   decreases len(p.tokens) - p.index
+//@   decreases 2
+//@   ensures [cursor] err == nil ==> PI(p) && p.index > old(p.index)
+//@   ensures {C04} [never-an-empty-node] err == nil ==> result.nodeType != ASTEmpty
+//@   ensures {C17} [error-location] parseErrOK(p, err)
+
+//@ func (*Parser).parseDotRHS
+//@   props C05
+//@   requires PI(p) && 0 <= bindingPower
+//@   assigns Parser.index
+//@   decreases len(p.tokens) - p.index
+//@   decreases 1
+//@   ensures [cursor] err == nil ==> PI(p) && p.index > old(p.index)
+//@   ensures {C04} [never-an-empty-node] err == nil ==> result.nodeType != ASTEmpty
+//@   ensures {C17} [error-location] parseErrOK(p, err)
+
+//@ func (*Parser).parseProjectionRHS
+//@   props C05
+//@   requires PI(p) && 0 <= bindingPower
+//@   assigns Parser.index
+//@   decreases len(p.tokens) - p.index
+//@   decreases 2
+//@   ensures [cursor] err == nil ==> PI(p) && p.index >= old(p.index)
+//@   ensures {C04} [never-an-empty-node] err == nil ==> result.nodeType != ASTEmpty
+//@   ensures {C17} [error-location] parseErrOK(p, err)
